@@ -273,7 +273,8 @@ def parse_header(source: BinaryIO) -> Tuple[OFXHeaderType, str]:
 
         # OFX header is read by nice clean machines, not meatbags -
         # should not contain 💩, 漢字, or what have you.
-        line = source.readline().decode("ascii")
+        # (the first line may already hold the body, in any encoding)
+        line = source.readline().decode("latin_1")
         if line.strip():
             found_header = True
             break
@@ -298,25 +299,18 @@ def parse_header(source: BinaryIO) -> Tuple[OFXHeaderType, str]:
         message = decoded_source[header_end_index:]
     else:
         logger.debug("No XML declaration - OFX version 1")
-        rawheader = line + "\n"
-        # First line is OFXHEADER; need to read next 8 lines for a fixed
-        # total of 9 fields required by OFX v1 spec.
-        for _ in range(8):
-            rawheader += source.readline().decode("ascii")
-
-        header, header_end_offset = OFXHeaderV1.parse(rawheader)
-
-        #  Input source stream position should have advanced to the beginning of
-        #  the OFX body tag soup, which is where subsequent calls
-        #  to read()/readlines() will pick up.
-        #
-        #  The seek call will correct the position when \r newline character is used
-        #  (Issue #84)
-        source.seek(header_start + header_end_offset)
+        # Line breaks between the header fields, and between header and body,
+        # are optional, so the header may share its line(s) with the body.
+        # Read everything from the start of the header and match against a
+        # byte-for-byte (latin-1) decoding: regex offsets are then byte
+        # offsets, whatever the encoding of the body (Issue #84).
+        source.seek(header_start)
+        raw = source.read()
+        header, header_end_offset = OFXHeaderV1.parse(raw.decode("latin_1"))
 
         #  Decode the OFX data body according to the encoding declared
         #  in the OFX header
-        message = source.read().decode(header.codec).strip()
+        message = raw[header_end_offset:].decode(header.codec).strip()
 
     return header, message
 
